@@ -418,7 +418,8 @@ class ExceptionTrace(object):
                                 supports_utf8=io.supports_utf8()
                             ).highlighted_lines(frame.line.strip())[0]
                         except tokenize.TokenError:
-                            code_line = frame.line.strip()
+                            # Shown as is: a "<" in the code must not start a tag
+                            code_line = self._escape(frame.line.strip())
 
                         self._render_line(
                             io, "{:>{}}  {}".format(" ", max_frame_length, code_line),
